@@ -7,7 +7,7 @@ from suites import run_suite
 
 LEAN_MODULES = ['GoSnaps.Props.C12', 'GoSnaps.Props.Tie.Wrappers', 'GoSnaps.Props.Tie.Flows', 'GoSnaps.Props.Tie.Pipeline']
 KINDS = ['snap', 'json', 'yaml', 'sasnap', 'sajson']
-OPTS = [(None, None), ('custom', None), (None, '.txt'), ('custom', '.yaml')]
+OPTS = [(None, None), ('custom', None), (None, '.txt'), ('custom', '.yaml'), ('api.v1.users', None)]
 
 
 def call(kind, cfg, texec, i):
